@@ -182,8 +182,10 @@ func (e *Env) eval(n *Node, r int) result {
 				return result{st: sX, r: out.r}
 			}
 			out.r = res.r
-			out.caps = appendCaps(out.caps, res.caps...)
-			out.vals = appendVals(out.vals, res.vals)
+			// out.caps / out.vals were created by this evaluation (they start nil), so appending in place
+			// cannot disturb anything another branch still refers to
+			out.caps = append(out.caps, res.caps...)
+			out.vals = append(out.vals, res.vals...)
 			out.nvals += res.nvals
 			out.first, out.last = span(out.first, out.last, res.first, res.last)
 		}
@@ -223,8 +225,8 @@ func (e *Env) eval(n *Node, r int) result {
 			iters++
 			progressed := res.r != out.r
 			out.r = res.r
-			out.caps = appendCaps(out.caps, res.caps...)
-			out.vals = appendVals(out.vals, res.vals)
+			out.caps = append(out.caps, res.caps...)
+			out.vals = append(out.vals, res.vals...)
 			out.nvals += res.nvals
 			out.first, out.last = span(out.first, out.last, res.first, res.last)
 			if n.Mode == '?' {
